@@ -1,12 +1,14 @@
 import PySMT.Impl.Manager
 /-!
-# C04 driver — `mgr <addr0> <addr1> | <op> | <op> …`
+# C04 driver — `mgr <addr0> <addr1> <addr2> | <op> | <op> …`
 
-One request = one construction history over two environments (0 and 1).
+One request = one construction history over three environments (0, 1, 2); `normalize r<k>`
+re-creates the object of op `k` (of any environment, also the target's own) in the op's
+environment, whose normalizer memo persists over the history.
 `<addrK>` = `A:` followed by the node ids of environment K in increasing CPython address
 order (what `sorted(..., key=id)` sees).  Every op starts with its environment.
 Answer: one token per op (`<id>` or `E:<class>`), then ` # ` table of env 0 ` # ` table of
-env 1 ` # ` type manager of env 0 ` # ` type manager of env 1.
+env 1 ` # ` … of env 2 ` # ` the three type managers.
 -/
 open PySMT.Manager
 
@@ -191,22 +193,36 @@ def showTm (tm : TypeMgr) : String :=
 
 /-! ### history state -/
 
+/-- three environments: managers, the memo of each manager's normalizer, address orders -/
 structure St where
-  m0 : Mgr := Mgr.init
-  m1 : Mgr := Mgr.init
-  addr0 : List Nid := []
-  addr1 : List Nid := []
+  mgrs : Array Mgr := #[Mgr.init, Mgr.init, Mgr.init]
+  memos : Array Memo := #[[], [], []]
+  addrs : Array (List Nid) := #[[], [], []]
   results : Array (Nat × Except Err Nid) := #[]
 
-def St.mgr (st : St) (e : Nat) : Mgr := if e = 0 then st.m0 else st.m1
-def St.setMgr (st : St) (e : Nat) (m : Mgr) : St := if e = 0 then { st with m0 := m } else { st with m1 := m }
+def nEnv : Nat := 3
+
+def St.mgr (st : St) (e : Nat) : Mgr := st.mgrs.getD e Mgr.init
+def St.setMgr (st : St) (e : Nat) (m : Mgr) : St := { st with mgrs := st.mgrs.setIfInBounds e m }
 
 def addrOf (l : List Nid) (i : Nid) : Nat :=
   match l.idxOf? i with
   | some k => k
   | none => l.length + i
 
-def St.addr (st : St) (e : Nat) : Nid → Nat := addrOf (if e = 0 then st.addr0 else st.addr1)
+def St.addr (st : St) (e : Nat) : Nid → Nat := addrOf (st.addrs.getD e [])
+
+/-- `r<k>` of any environment: (environment, id) -/
+def St.anyRef (st : St) (tok : String) : Option (Nat × Nid) :=
+  match tok.toList with
+  | 'r' :: ds =>
+    match (String.ofList ds).toNat? with
+    | some k =>
+      match st.results[k]? with
+      | some (e', .ok i) => some (e', i)
+      | _ => none
+    | none => none
+  | _ => none
 
 /-- `r<k>`: the id returned by op `k`, which must belong to environment `e` -/
 def St.ref (st : St) (e : Nat) (tok : String) : Option Nid :=
@@ -345,9 +361,6 @@ def opProg (st : St) (e : Nat) (toks : List String) : Option (Prog Nid) :=
   | ["Array", t, d, kvs] => do some (mkArray addr (← readTy t) (← ref d) (← st.pairs e kvs))
   | ["Algebraic", h] => do some (create ⟨NT.ALGEBRAIC_CONSTANT, [], .alg (← unhexH h)⟩)
   | ["Type", t] => do some (.prim (.internTy (← readTy t)) .pure)
-  | ["normalize", r] => do
-    let src ← st.ref (1 - e) r
-    some (normalize (st.mgr (1 - e)) addr src)
   | [name, a] => do some (mkPlain (← unPlain name) [← ref a])
   | [name, a, b] =>
     (match binPlain name with
@@ -371,8 +384,14 @@ def step (st : St) (toks : List String) : Option St :=
   | envTok :: rest =>
     match envTok.toNat? with
     | some e =>
-      if e > 1 then none else
+      if e ≥ nEnv then none else
       match rest with
+      | ["normalize", r] => do
+        -- `World.normalize`: source = the environment the referenced object lives in
+        let (k, i) ← st.anyRef r
+        let (res, tgt', memo') := normStep (st.mgr k) (st.mgr e) k (st.addr e) i (st.memos.getD e [])
+        some { (st.setMgr e tgt') with memos := st.memos.setIfInBounds e memo',
+                                       results := st.results.push (e, res) }
       | ["get", a, i] => do
         -- read-only accessor `array_value_get`
         let r := arrayValueGet (st.addr e) (st.mgr e) (← st.ref e a) (← st.ref e i)
@@ -418,17 +437,18 @@ def showRes : Except Err Nid → String
 
 def answer (line : String) : String :=
   match (line.splitOn " ").filter (· ≠ "") with
-  | "mgr" :: a0 :: a1 :: rest =>
-    match readAddr a0, readAddr a1 with
-    | some l0, some l1 =>
+  | "mgr" :: a0 :: a1 :: a2 :: rest =>
+    match readAddr a0, readAddr a1, readAddr a2 with
+    | some l0, some l1, some l2 =>
       let ops := (splitOps rest).filter (fun o => !o.isEmpty)
-      let st0 : St := { addr0 := l0, addr1 := l1 }
+      let st0 : St := { addrs := #[l0, l1, l2] }
       match ops.foldlM step st0 with
       | some st =>
-        " ".intercalate (st.results.toList.map (fun r => showRes r.2)) ++ " # " ++ showTable st.m0 ++
-          " # " ++ showTable st.m1 ++ " # " ++ showTm st.m0.tm ++ " # " ++ showTm st.m1.tm
+        " ".intercalate (st.results.toList.map (fun r => showRes r.2)) ++ " # " ++
+          " # ".intercalate (st.mgrs.toList.map showTable) ++ " # " ++
+          " # ".intercalate (st.mgrs.toList.map fun m => showTm m.tm)
       | none => "bad-op"
-    | _, _ => "bad-op"
+    | _, _, _ => "bad-op"
   | _ => "bad-op"
 
 end C04Driver
